@@ -1220,3 +1220,383 @@ Proof.
   cbn [clock_ok] in Hc. destruct Hc as [Hc1 Hc2]. destruct (step_spec c w o Hsp Hi Hc1) as [S1 [S2 _]].
   apply IH; [exact S1|apply ginv_step; assumption|rewrite S2; exact Hc2].
 Qed.
+
+(* ---------- the shape of open() and of a rotation ---------- *)
+Lemma stamps_of_app a b : stamps_of (a ++ b) = stamps_of a ++ stamps_of b.
+Proof. induction a as [|f t IH]; [reflexivity|]. cbn [app stamps_of]. destruct (f_name f); rewrite IH; reflexivity. Qed.
+Lemma stamps_of_names a b : names a = names b -> stamps_of a = stamps_of b.
+Proof.
+  revert b. induction a as [|f t IH]; intros [|g u] H; try discriminate; [reflexivity|]. cbn [names map] in H. inversion H as [[H1 H2]].
+  cbn [stamps_of]. rewrite H1. rewrite (IH u H2). reflexivity.
+Qed.
+Lemma names_fs_append i x fs : names (fs_append i x fs) = names fs.
+Proof. unfold names, fs_append. rewrite map_map. apply map_ext. intros f. destruct (N.eqb (f_ino f) i); reflexivity. Qed.
+
+Definition new_file (c : cfg) (w : world) (t : Z) : file :=
+  {| f_name := newFileName c t; f_ino := next_ino w; f_mode := eff_mode c; f_data := [] |}.
+Lemma do_open_absent c w t : fopen w = None -> ~ In (newFileName c t) (names (files w)) ->
+  files (do_open c w t) = files w ++ [new_file c w t] /\ fopen (do_open c w t) = Some (next_ino w, newFileName c t).
+Proof. intros Ho Hn. unfold do_open. rewrite Ho. apply lookup_name_none in Hn. rewrite Hn. split; reflexivity. Qed.
+Lemma do_open_present c w t : sinv c w -> clock w < t -> fopen w = None -> In (newFileName c t) (names (files w)) ->
+  exists fs' p, files (do_open c w t) = fs' ++ [p] /\ f_name p = newFileName c t /\ fopen (do_open c w t) = Some (f_ino p, newFileName c t) /\
+                names (files (do_open c w t)) = names (files w).
+Proof.
+  intros Hi Ht Ho Hin.
+  assert (Hpl : newFileName c t = NPlain).
+  { destruct (newFileName_cases c t) as [[_ E]|[_ E]]; [|exact E]. exfalso. rewrite E in Hin. pose proof (i_below _ _ Hi t Hin). lia. }
+  rewrite Hpl in *. destruct (sorted_plain_last _ (i_sorted _ _ Hi) Hin) as [fs0 [p0 [E [Hp Hnp]]]].
+  assert (El : lookup_name NPlain (files w) = Some p0) by (rewrite E; apply lookup_name_last; assumption).
+  unfold do_open. rewrite Ho, Hpl, El.
+  destruct (N.eqb (cmode c) 0); ginv_fields.
+  - exists fs0, p0. rewrite E. auto.
+  - set (g := fun f => if name_eqb (f_name f) NPlain then set_mode f (cmode c) else f).
+    exists (map g fs0), (g p0). rewrite E at 1. unfold fs_chmod. rewrite map_app. fold g. cbn [map].
+    assert (Hgi : f_ino (g p0) = f_ino p0) by (unfold g; rewrite Hp; reflexivity).
+    assert (Hgn : f_name (g p0) = NPlain) by (unfold g; rewrite Hp; cbn; exact Hp).
+    conj; auto; [congruence|]. apply (names_chmod NPlain (cmode c) (files w)).
+Qed.
+
+Lemma prune_stamps c w : sinv c w -> fopen w = None ->
+  stamps_of (files (prune c w)) =
+  if special c || N.eqb (maxFiles c) 0 then stamps_of (files w)
+  else skipn (length (stamps_of (files w)) - N.to_nat (maxFiles c)) (stamps_of (files w)).
+Proof.
+  intros Hi Ho. unfold prune, prune_n, stale_count. destruct (special c || N.eqb (maxFiles c) 0); [reflexivity|].
+  rewrite (glob_sorted_eq _ _ Hi). rewrite Nat.min_id.
+  destruct (remove_all_spec c (length (stamps_of (files w)) - N.to_nat (maxFiles c)) w Hi Ho) as [_ [_ [_ [_ [_ [A6 _]]]]]]. exact A6.
+Qed.
+Lemma prune_names_subset c w j n : In n (names (files (prune_n j c w))) -> In n (names (files w)).
+Proof.
+  unfold prune_n. destruct (special c || N.eqb (maxFiles c) 0); [tauto|].
+  generalize (firstn (Nat.min j (stale_count c w)) (glob_sorted (files w))). intros v. revert w.
+  induction v as [|a r IH]; intros w; cbn [remove_all]; [tauto|]. intros H. apply IH in H. ginv_fields.
+  apply in_map_iff in H as [f [E Hf]]. apply in_fs_remove in Hf as [Hf _]. rewrite <- E. apply in_map. exact Hf.
+Qed.
+
+(* a rotation that is due either fails at the rename (TimestampOnlyOnRotate and the plain file is gone) or: close; rename
+   (TimestampOnlyOnRotate); prune; open a NEW file *)
+Lemma rotate_shape c w t2 t3 t4 : sinv c w -> clock w < t2 -> t2 < t3 -> t3 < t4 -> rotate_due c w t2 = true ->
+  (exists wp, sinv c wp /\ fopen wp = None /\ clock wp < t4 /\
+      do_rotate c w t2 t3 t4 = (do_open c (prune c wp) t4, true, true) /\
+      ~ In (newFileName c t4) (names (files wp)) /\
+      stamps_of (files wp) = stamps_of (files w) ++ (if tsOnly c then [t3] else []) /\
+      next_ino wp = next_ino w)
+  \/ (tsOnly c = true /\ ~ In NPlain (names (files w)) /\
+      do_rotate c w t2 t3 t4 = (set_clock (set_fopen (set_clock w t2) None) t3, false, true)).
+Proof.
+  intros Hi H2 H3 H4 Hdue. unfold do_rotate. rewrite Hdue.
+  assert (Hi1 : sinv c (set_clock w t2)) by (apply sinv_set_clock; [exact Hi|lia]).
+  set (w2 := set_fopen (set_clock w t2) None).
+  assert (Hi2 : sinv c w2) by (apply sinv_close; exact Hi1).
+  destruct (tsOnly c) eqn:Ets.
+  - set (w3 := set_clock w2 t3).
+    destruct (fs_rename NPlain (NStamp t3) (files w3)) as [fs'|] eqn:Er.
+    2:{ right. conj; auto. apply fs_rename_none in Er. exact Er. }
+    left.
+    assert (Hin : In NPlain (names (files w2))).
+    { destruct (has_name NPlain (files w2)) eqn:Eh; [apply has_name_in; exact Eh|].
+      unfold fs_rename, w3 in Er. projs. rewrite Eh in Er. discriminate. }
+    destruct (sorted_plain_last _ (i_sorted _ _ Hi2) Hin) as [fs0 [p [E [Hp Hnp]]]].
+    assert (Hnf : is_foreign (f_name p) = false) by (rewrite Hp; reflexivity).
+    destruct (sinv_rename_last c w2 fs0 p t3 Hi2 E Hnf) as [R1 [R2 R3]]; [unfold w2; projs; lia|unfold w2; projs; discriminate|].
+    rewrite Hp in R1. unfold w3 in Er. projs. rewrite R1 in Er. inversion Er; subst fs'. clear Er.
+    exists (set_files w3 (fs0 ++ [set_name p (NStamp t3)])). conj; auto.
+    + projs. unfold newFileName. rewrite Ets. rewrite names_app. intros H. apply in_app_or in H as [H|[H|[]]]; [contradiction|discriminate].
+    + projs. unfold w2 in E. projs. rewrite E, !stamps_of_app. cbn [stamps_of set_name f_name]. rewrite Hp, app_nil_r. reflexivity.
+  - left. exists w2. conj; auto.
+    + unfold w2. projs. lia.
+    + destruct (newFileName_cases c t4) as [[_ E]|[Hm E]]; rewrite E.
+      * apply (fresh_stamp_notin c w2 t4 Hi2). unfold w2. projs. lia.
+      * exfalso. unfold modeA in Hm. rewrite Ets in Hm. cbn [negb andb] in Hm. unfold rotate_due in Hdue. unfold rotateEnabled in Hm. lia.
+    + unfold w2. projs. rewrite app_nil_r. reflexivity.
+Qed.
+
+(* ---------- the name of the active file ---------- *)
+Definition active_named (w : world) : Prop :=
+  forall i nm, fopen w = Some (i, nm) -> exists fs' p, files w = fs' ++ [p] /\ f_ino p = i /\ f_name p = nm.
+Lemma active_named_open c w t : sinv c w -> clock w < t -> active_named w -> active_named (do_open c w t).
+Proof.
+  intros Hi Ht Ha. destruct (fopen w) as [x|] eqn:Eo; [rewrite (do_open_open c w t x Eo); exact Ha|].
+  destruct (has_name (newFileName c t) (files w)) eqn:Eh.
+  - apply has_name_in in Eh. destruct (do_open_present c w t Hi Ht Eo Eh) as [fs' [p [E1 [E2 [E3 _]]]]].
+    intros i nm H. rewrite E3 in H. inversion H; subst. exists fs', p. auto.
+  - assert (Hn : ~ In (newFileName c t) (names (files w))) by (intros H; apply has_name_in in H; congruence).
+    destruct (do_open_absent c w t Eo Hn) as [E1 E2]. intros i nm H. rewrite E2 in H. inversion H; subst.
+    exists (files w), (new_file c w t). auto.
+Qed.
+Lemma active_named_append c w x s b : sinv c w -> active_named w -> active_named (append_chunk w x s b).
+Proof.
+  intros Hi Ha. unfold append_chunk. destruct (fopen w) as [[i nm]|] eqn:Eo; [|exact Ha].
+  destruct (Ha i nm Eo) as [fs' [p [E [Hp Hn]]]].
+  assert (Ea : fs_append i x (files w) = fs' ++ [add_data p x]).
+  { rewrite E, <- Hp. apply fs_append_last. apply sorted_inos_last. rewrite <- E. exact (i_inos _ _ Hi). }
+  intros i0 nm0 H. ginv_fields. inversion H; subst i0 nm0. exists fs', (add_data p x). rewrite Ea. auto.
+Qed.
+Lemma active_named_closed w : fopen w = None -> active_named w.
+Proof. intros H i nm E. congruence. Qed.
+
+Definition no_extrename (o : op) : Prop := match o with ExtRename _ => False | _ => True end.
+Lemma active_named_step c w o : special c = false -> sinv c w -> op_incr (clock w) o -> no_extrename o ->
+  active_named w -> active_named (step c w o).
+Proof.
+  intros Hsp Hi Hinc Hne Ha. unfold step. destruct o as [id size t1 t2 t3 t4 t5 flt|t|t|t]; cbn [step3]; rewrite ?Hsp.
+  - cbn [op_incr] in Hinc. destruct Hinc as [H1 [H2 [H3 [H4 H5]]]]. unfold do_write.
+    assert (Hi1 : sinv c (do_open c w t1)) by (apply sinv_open; assumption).
+    assert (Hc1 : clock (do_open c w t1) < t2) by (rewrite do_open_clock; destruct (fopen w); lia).
+    pose proof (active_named_open c w t1 Hi H1 Ha) as Ha1.
+    pose proof (rotate_spec c _ t2 t3 t4 Hi1 Hc1 H3 H4) as [G1 [_ [_ G4]]].
+    assert (Ha2 : active_named (fst (fst (do_rotate c (do_open c w t1) t2 t3 t4)))).
+    { destruct (rotate_due c (do_open c w t1) t2) eqn:Edue.
+      - destruct (rotate_shape c _ t2 t3 t4 Hi1 Hc1 H3 H4 Edue) as [[wp [P1 [P2 [P3 [P4 _]]]]]|[_ [_ P4]]]; rewrite P4; cbn [fst].
+        + destruct (prune_spec c wp P1 P2) as [Q1 [Q2 [_ [_ Q5]]]]. apply active_named_open; [exact Q1|lia|apply active_named_closed; exact Q2].
+        + apply active_named_closed. reflexivity.
+      - unfold do_rotate. rewrite Edue. cbn [fst]. exact Ha1. }
+    destruct (do_rotate c (do_open c w t1) t2 t3 t4) as [[w2 ok] rot]. cbn [fst] in *.
+    destruct ok; cbn [negb fst]; [|exact Ha2].
+    destruct (first_fails flt); cbn [negb fst].
+    + assert (H3' : sinv c (if leaves_partial flt then append_chunk w2 0%N 0 false else w2) /\
+                    clock (if leaves_partial flt then append_chunk w2 0%N 0 false else w2) = clock w2).
+      { destruct (leaves_partial flt); [|auto]. destruct (append_spec c w2 0%N 0 false G1) as [A1 [_ [_ [A4 _]]]]. auto. }
+      destruct H3' as [S3 C3]. destruct (reopen_spec c _ t5 S3) as [R1 _]; [lia|].
+      assert (Ha4 : active_named (do_reopen c (if leaves_partial flt then append_chunk w2 0%N 0 false else w2) t5)).
+      { rewrite do_reopen_eq. apply active_named_open; [apply sinv_close; exact S3|ginv_fields; lia|apply active_named_closed; reflexivity]. }
+      destruct (second_fails flt); cbn [fst]; [exact Ha4|]. apply (active_named_append c _ id size false R1 Ha4).
+    + apply (active_named_append c w2 id size true G1 Ha2).
+  - cbn [fst]. rewrite do_reopen_eq. cbn [op_incr] in Hinc.
+    apply active_named_open; [apply sinv_close; exact Hi|exact Hinc|apply active_named_closed; reflexivity].
+  - contradiction.
+  - exact Ha.
+Qed.
+
+(* ---------- a rotating write: retention and the new file ---------- *)
+Definition kept_stamps (c : cfg) (S : list Z) : list Z :=
+  if N.eqb (maxFiles c) 0 then S else skipn (length S - N.to_nat (maxFiles c)) S.
+Lemma kept_stamps_length c S : maxFiles c <> 0%N -> (length (kept_stamps c S) <= N.to_nat (maxFiles c))%nat.
+Proof.
+  intros H. unfold kept_stamps. destruct (N.eqb (maxFiles c) 0) eqn:E; [apply N.eqb_eq in E; contradiction|].
+  rewrite skipn_length. lia.
+Qed.
+
+Theorem rotating_write_spec c w id size t1 t2 t3 t4 t5 : special c = false -> sinv c w ->
+  op_incr (clock w) (Write id size t1 t2 t3 t4 t5 nofault) ->
+  step_rot c w (Write id size t1 t2 t3 t4 t5 nofault) = true -> step_ok c w (Write id size t1 t2 t3 t4 t5 nofault) = true ->
+  let w1 := do_open c w t1 in
+  let w' := step c w (Write id size t1 t2 t3 t4 t5 nofault) in
+  let S := stamps_of (files w1) ++ (if tsOnly c then [t3] else []) in     (* the rotated files right before pruneFiles, oldest first *)
+  StronglySorted Z.lt S /\
+  stamps_of (files w') = kept_stamps c S ++ (if modeA c then [t4] else []) /\
+  exists fs' p, files w' = fs' ++ [p] /\ f_data p = [id] /\ f_name p = newFileName c t4 /\ f_mode p = eff_mode c /\
+                f_ino p = next_ino w1 /\ fopen w' = Some (f_ino p, newFileName c t4) /\ ~ In (f_ino p) (inos (files w1)).
+Proof.
+  intros Hsp Hi Hinc Hrot Hok. cbn zeta. unfold step_rot, step_ok, step in *. cbn [step3] in *. rewrite Hsp in *.
+  cbn [op_incr] in Hinc. destruct Hinc as [H1 [H2 [H3 [H4 H5]]]].
+  pose proof (write_rot c w id size t1 t2 t3 t4 t5 nofault) as Hr. unfold do_write in *.
+  assert (Hi1 : sinv c (do_open c w t1)) by (apply sinv_open; assumption).
+  assert (Hc1 : clock (do_open c w t1) < t2) by (rewrite do_open_clock; destruct (fopen w); lia).
+  destruct (rotate_due c (do_open c w t1) t2) eqn:Edue.
+  2:{ destruct (do_rotate c (do_open c w t1) t2 t3 t4) as [[w2 ok] rot]. destruct ok; cbn [negb nofault first_fails fst snd] in *; congruence. }
+  destruct (rotate_shape c _ t2 t3 t4 Hi1 Hc1 H3 H4 Edue) as [[wp [P1 [P2 [P3 [P4 [P5 [P6 P7]]]]]]]|[_ [_ P4]]]; rewrite P4 in *; cbn [negb nofault first_fails fst snd] in *; [|discriminate].
+  destruct (prune_spec c wp P1 P2) as [Q1 [Q2 [_ [_ Q5]]]].
+  assert (Hn : ~ In (newFileName c t4) (names (files (prune c wp)))) by (intros H; apply P5; exact (prune_names_subset c wp _ _ H)).
+  destruct (do_open_absent c (prune c wp) t4 Q2 Hn) as [E1 E2].
+  assert (Hni : next_ino (prune c wp) = next_ino (do_open c w t1)).
+  { destruct (prune_n_fields (stale_count c wp) c wp) as [_ [_ [_ [_ [_ F]]]]]. cbn zeta in F. unfold prune. rewrite F. exact P7. }
+  assert (Hi2 : sinv c (do_open c (prune c wp) t4)) by (apply sinv_open; [exact Q1|lia]).
+  assert (Hfresh : ~ In (next_ino (prune c wp)) (inos (files (prune c wp)))).
+  { intros H. pose proof (i_next _ _ Q1 _ H). lia. }
+  assert (Ea : fs_append (next_ino (prune c wp)) id (files (do_open c (prune c wp) t4)) = files (prune c wp) ++ [add_data (new_file c (prune c wp) t4) id]).
+  { rewrite E1. apply (fs_append_last (files (prune c wp)) (new_file c (prune c wp) t4) id). exact Hfresh. }
+  unfold append_chunk. rewrite E2. ginv_fields. rewrite Ea.
+  assert (HS : StronglySorted Z.lt (stamps_of (files (do_open c w t1)) ++ (if tsOnly c then [t3] else []))).
+  { rewrite <- P6. apply stamps_of_sorted. exact (i_sorted _ _ P1). }
+  split; [exact HS|]. split.
+  - rewrite stamps_of_app, (prune_stamps c wp P1 P2), Hsp, P6. cbn [orb]. unfold kept_stamps. f_equal.
+    cbn [stamps_of add_data new_file f_name]. destruct (newFileName_cases c t4) as [[Hm E]|[Hm E]]; rewrite E, Hm; reflexivity.
+  - exists (files (prune c wp)), (add_data (new_file c (prune c wp) t4) id). cbn [add_data new_file f_data f_name f_mode f_ino app].
+    conj; auto. rewrite Hni. intros H. pose proof (i_next _ _ Hi1 _ H). lia.
+Qed.
+
+(* a write that does not rotate goes to the file that was already open (or to the one open() has just opened) *)
+Theorem non_rotating_write_same_file c w id size t1 t2 t3 t4 t5 : special c = false ->
+  step_rot c w (Write id size t1 t2 t3 t4 t5 nofault) = false ->
+  step_ok c w (Write id size t1 t2 t3 t4 t5 nofault) = true /\
+  fopen (step c w (Write id size t1 t2 t3 t4 t5 nofault)) = fopen (do_open c w t1) /\
+  names (files (step c w (Write id size t1 t2 t3 t4 t5 nofault))) = names (files (do_open c w t1)).
+Proof.
+  intros Hsp Hrot. unfold step_rot, step_ok, step in *. cbn [step3] in *. rewrite Hsp in *.
+  pose proof (write_rot c w id size t1 t2 t3 t4 t5 nofault) as Hr. unfold do_write in *. unfold do_rotate in *.
+  destruct (rotate_due c (do_open c w t1) t2); cbn [negb nofault first_fails fst snd] in *.
+  - destruct (tsOnly c); [destruct (fs_rename _ _ _)|]; cbn [negb fst snd] in *; discriminate.
+  - destruct (do_open_fopen c w t1) as [[i nm] Ho]. unfold append_chunk. ginv_fields. rewrite Ho. ginv_fields.
+    conj; auto. apply names_fs_append.
+Qed.
+
+(* ---------- reachable states ---------- *)
+Fixpoint no_extrenames (ops : list op) : Prop := match ops with [] => True | o :: r => no_extrename o /\ no_extrenames r end.
+Lemma run_from_active_named c ops : special c = false -> forall w, sinv c w -> active_named w -> clock_ok (clock w) ops -> no_extrenames ops ->
+  active_named (run_from c w ops).
+Proof.
+  intros Hsp. induction ops as [|o r IH]; intros w Hi Ha Hc Hn; cbn [run_from fold_left]; [exact Ha|].
+  cbn [clock_ok no_extrenames] in *. destruct Hc as [Hc1 Hc2]. destruct Hn as [Hn1 Hn2]. destruct (step_spec c w o Hsp Hi Hc1) as [S1 [S2 _]].
+  apply IH; [exact S1|apply active_named_step; assumption|rewrite S2; exact Hc2|exact Hn2].
+Qed.
+
+Section Reachable.
+  Variables (c : cfg) (fids : list N) (dm : option N) (k0 : Z) (ops : list op).
+  Hypothesis Hdir : special c = false.
+  Hypothesis Hff : fault_free ops.
+  Hypothesis Hclk : clock_ok k0 ops.
+  Let w := run c fids dm k0 ops.
+
+  Lemma reach_sinv : sinv c w.
+  Proof. exact (reachable_sinv c fids dm k0 ops Hdir Hff Hclk). Qed.
+  Lemma reach_ginv : ginv c dm (mk_foreign 1%N fids) w.
+  Proof. apply run_from_ginv; auto; [apply sinv_init|apply ginv_init]. Qed.
+
+  (* rotated files carry strictly increasing stamps: of two stamped files the later created one has the larger stamp *)
+  Theorem stamps_strictly_increase : forall f g a b,
+    In f (files w) -> In g (files w) -> (f_ino f < f_ino g)%N -> f_name f = NStamp a -> f_name g = NStamp b -> a < b.
+  Proof. intros f g a b. apply (stamps_increase_with_creation c w f g a b reach_sinv). Qed.
+
+  (* files of the sink carry the configured mode (0600 when unset); the directory, once anything was opened, exists with
+     0700 if the sink had to create it (otherwise it keeps the mode it had) *)
+  Theorem mode_and_dir :
+    (forall f, In f (files w) -> is_foreign (f_name f) = false -> f_mode f = eff_mode c) /\
+    match dirmode w with
+    | None => dm = None /\ fopen w = None /\ sink_files (files w) = []
+    | Some m => m = match dm with Some m0 => m0 | None => dirMode end
+    end.
+  Proof. destruct reach_ginv as [A B _ _]. split; [exact A|exact B]. Qed.
+
+  (* the name under which the sink holds its file open is the one newFileName dictates for LastCreated: the plain
+     configured name with TimestampOnlyOnRotate (or without any limit), base-<LastCreated> otherwise *)
+  Theorem opened_name : forall i nm, fopen w = Some (i, nm) ->
+    nm = newFileName c (lc w) /\ (tsOnly c = true -> nm = NPlain) /\ (modeA c = true -> nm = NStamp (lc w)).
+  Proof.
+    intros i nm H. destruct reach_ginv as [_ _ C0 _]. specialize (C0 i nm H). subst nm. split; [reflexivity|].
+    unfold newFileName, modeA. split; intros E; [rewrite E; reflexivity|]. destruct (tsOnly c); [discriminate|]. cbn in E. rewrite E. reflexivity.
+  Qed.
+  (* … and unless somebody renamed it away, that is the name the active file has *)
+  Theorem active_file_name : no_extrenames ops -> forall i nm, fopen w = Some (i, nm) ->
+    exists p, active_file w = Some p /\ f_name p = newFileName c (lc w).
+  Proof.
+    intros Hn i nm H.
+    assert (Ha : active_named w).
+    { apply run_from_active_named; auto; [apply sinv_init|apply active_named_closed; reflexivity]. }
+    destruct (Ha i nm H) as [fs' [p [E [Hp Hnm]]]]. exists p. split.
+    - unfold active_file. rewrite H, E, <- Hp. apply lookup_ino_last. apply sorted_inos_last. rewrite <- E. exact (i_inos _ _ reach_sinv).
+    - destruct (opened_name i nm H) as [E1 _]. congruence.
+  Qed.
+  (* Reopen always re-establishes the configured name, whatever happened to the directory before *)
+  Theorem reopen_restores_name : forall t, clock w < t ->
+    exists p, active_file (step c w (Reopen t)) = Some p /\ f_name p = newFileName c t /\ lc (step c w (Reopen t)) = t.
+  Proof.
+    intros t Ht. unfold step. cbn [step3]. rewrite Hdir. cbn [fst]. rewrite do_reopen_eq.
+    pose proof (sinv_close _ _ reach_sinv) as Hc.
+    assert (Ha : active_named (do_open c (set_fopen w None) t)) by (apply active_named_open; [exact Hc|exact Ht|apply active_named_closed; reflexivity]).
+    pose proof (sinv_open c _ t Hc Ht) as Hi2.
+    destruct (do_open_fopen c (set_fopen w None) t) as [[i nm] Ho]. destruct (Ha i nm Ho) as [fs' [p [E [Hp Hnm]]]].
+    exists p. conj.
+    - unfold active_file. rewrite Ho, E, <- Hp. apply lookup_ino_last. apply sorted_inos_last. rewrite <- E. exact (i_inos _ _ Hi2).
+    - assert (Hg : ginv c dm (mk_foreign 1%N fids) (do_open c (set_fopen w None) t)) by (apply ginv_open, ginv_close; exact reach_ginv).
+      destruct Hg as [_ _ C0 _]. specialize (C0 i nm Ho). destruct (do_open_bw_lc c (set_fopen w None) t) as [_ [L _]]. ginv_fields. rewrite L in C0. congruence.
+    - destruct (do_open_bw_lc c (set_fopen w None) t) as [_ [L _]]. exact L.
+  Qed.
+
+  (* files outside the sink's name space are never removed or changed; the file the sink has open is in the directory *)
+  Theorem active_and_foreign_never_removed :
+    foreign_files (files w) = mk_foreign 1%N fids /\
+    (forall i nm, fopen w = Some (i, nm) -> exists p, In p (files w) /\ f_ino p = i /\ is_foreign (f_name p) = false).
+  Proof.
+    split; [exact (g_foreign _ _ _ _ reach_ginv)|]. intros i nm H. destruct (i_open _ _ reach_sinv i nm H) as [fs' [p [E [Hp Hnf]]]].
+    exists p. conj; auto. rewrite E. apply in_or_app. right. left. reflexivity.
+  Qed.
+End Reachable.
+
+(* … also at every crash point of the next call *)
+Theorem foreign_untouched_by_step c fids dm k0 ops o : special c = false -> fault_free ops -> clock_ok k0 (ops ++ [o]) ->
+  foreign_files (files (step c (run c fids dm k0 ops) o)) = mk_foreign 1%N fids.
+Proof.
+  intros Hsp Hff Hclk.
+  destruct (clock_ok_app c ops o Hsp (w_init fids dm k0) (sinv_init c fids dm k0) Hclk) as [Hc1 Hc2].
+  pose proof (reach_sinv c fids dm k0 ops Hsp Hff Hc1) as Hi. pose proof (reach_ginv c fids dm k0 ops Hsp Hc1) as Hg.
+  exact (g_foreign _ _ _ _ (ginv_step c dm _ _ o Hi Hc2 Hg)).
+Qed.
+
+(* retention right after a rotation, over every history *)
+Theorem retention_after_rotation c fids dm k0 ops id size t1 t2 t3 t4 t5 :
+  special c = false -> fault_free ops -> clock_ok k0 (ops ++ [Write id size t1 t2 t3 t4 t5 nofault]) ->
+  let w := run c fids dm k0 ops in
+  let o := Write id size t1 t2 t3 t4 t5 nofault in
+  step_rot c w o = true -> step_ok c w o = true ->
+  let S := stamps_of (files (do_open c w t1)) ++ (if tsOnly c then [t3] else []) in
+  StronglySorted Z.lt S /\
+  stamps_of (files (step c w o)) = kept_stamps c S ++ (if modeA c then [t4] else []) /\
+  (maxFiles c <> 0%N -> (length (kept_stamps c S) <= N.to_nat (maxFiles c))%nat) /\
+  exists fs' p, files (step c w o) = fs' ++ [p] /\ f_data p = [id] /\ f_name p = newFileName c t4 /\ f_mode p = eff_mode c /\
+                f_ino p = next_ino (do_open c w t1) /\ fopen (step c w o) = Some (f_ino p, newFileName c t4) /\
+                ~ In (f_ino p) (inos (files (do_open c w t1))).
+Proof.
+  intros Hsp Hff Hclk w o Hrot Hok S.
+  destruct (clock_ok_app c ops o Hsp (w_init fids dm k0) (sinv_init c fids dm k0) Hclk) as [Hc1 Hc2].
+  pose proof (reach_sinv c fids dm k0 ops Hsp Hff Hc1) as Hi.
+  destruct (rotating_write_spec c w id size t1 t2 t3 t4 t5 Hsp Hi Hc2 Hrot Hok) as [A [B C0]].
+  conj; auto. apply kept_stamps_length.
+Qed.
+
+(* ---------- constants ---------- *)
+Lemma mode_constants : defaultMode = 384%N /\ dirMode = 448%N /\ (forall c, cmode c = 0%N -> eff_mode c = 384%N) /\
+  (forall c, cmode c <> 0%N -> eff_mode c = cmode c).
+Proof.
+  conj; try reflexivity; intros c H; unfold eff_mode.
+  - rewrite H. reflexivity.
+  - destruct (N.eqb (cmode c) 0) eqn:E; [apply N.eqb_eq in E; contradiction|reflexivity].
+Qed.
+
+(* ---------- sort.Strings on decimal stamps of equal length is the numeric order (what glob_sorted assumes) ---------- *)
+Fixpoint lex_lt (a b : list N) : Prop :=      (* strings.Compare on the digit characters, given as digit values *)
+  match a, b with
+  | [], [] => False
+  | [], _ :: _ => True
+  | _ :: _, [] => False
+  | x :: s, y :: t => (x < y)%N \/ (x = y /\ lex_lt s t)
+  end.
+Fixpoint digits_val (l : list N) : N :=       (* the number a decimal digit string denotes *)
+  match l with [] => 0%N | x :: s => (x * 10 ^ N.of_nat (length s) + digits_val s)%N end.
+Lemma digits_val_bound l : Forall (fun d => (d < 10)%N) l -> (digits_val l < 10 ^ N.of_nat (length l))%N.
+Proof.
+  induction l as [|x s IH]; intros H; [cbn; lia|]. inversion H as [|? ? Hx Hs]; subst. specialize (IH Hs).
+  cbn [digits_val length]. rewrite Nat2N.inj_succ, N.pow_succ_r'. nia.
+Qed.
+Theorem stamp_order_is_string_order : forall a b : list N, length a = length b ->
+  Forall (fun d => (d < 10)%N) a -> Forall (fun d => (d < 10)%N) b ->
+  (lex_lt a b <-> (digits_val a < digits_val b)%N).
+Proof.
+  induction a as [|x s IH]; intros [|y t] Hl Ha Hb; try discriminate; [cbn; lia|].
+  inversion Ha as [|? ? Hx Hs]; inversion Hb as [|? ? Hy Ht]; subst. cbn [length] in Hl. injection Hl as Hl.
+  specialize (IH t Hl Hs Ht). pose proof (digits_val_bound s Hs) as Bs. pose proof (digits_val_bound t Ht) as Bt.
+  cbn [lex_lt digits_val]. rewrite Hl in *. set (P := (10 ^ N.of_nat (length t))%N) in *.
+  split.
+  - intros [H|[-> H]]; [nia|]. apply IH in H. lia.
+  - intros H. destruct (N.lt_trichotomy x y) as [L|[E|G]]; [left; exact L| |exfalso; nia].
+    right. split; [exact E|]. apply IH. subst y. lia.
+Qed.
+
+(* ---------- the acknowledged chunks are ids of Write operations: no chunk 0 ("not a whole event") without a fault ---------- *)
+Definition write_id_nonzero (o : op) : Prop := match o with Write id _ _ _ _ _ _ _ => id <> 0%N | _ => True end.
+Lemma no_torn_from c ops : special c = false -> fault_free ops -> Forall write_id_nonzero ops -> forall w,
+  sinv c w -> clock_ok (clock w) ops -> ~ In 0%N (acked w) -> ~ In 0%N (acked (run_from c w ops)).
+Proof.
+  intros Hsp Hff. induction Hff as [|o r Ho Hr IH]; intros Hnz w Hi Hc H0; cbn [run_from fold_left]; [exact H0|].
+  inversion Hnz as [|? ? Hn1 Hn2]; subst. cbn [clock_ok] in Hc. destruct Hc as [Hc1 Hc2].
+  destruct (step_spec c w o Hsp Hi Hc1) as [S1 [S2 S3]]. destruct (S3 Ho) as [_ S5].
+  apply IH; [exact Hn2|exact S1|rewrite S2; exact Hc2|]. rewrite S5. intros H. apply in_app_or in H as [H|H]; [contradiction|].
+  unfold op_ack in H. destruct o as [id size t1 t2 t3 t4 t5 flt|t|t|t]; try contradiction.
+  unfold ackl in H. destruct (step_ok c w _); [|contradiction]. destruct H as [H|[]]. cbn in Hn1. congruence.
+Qed.
+Theorem no_torn_chunk c fids dm k0 ops : special c = false -> fault_free ops -> clock_ok k0 ops -> Forall write_id_nonzero ops ->
+  ~ In 0%N (pruned (run c fids dm k0 ops) ++ reading (files (run c fids dm k0 ops))).
+Proof.
+  intros Hsp Hff Hc Hnz. rewrite <- (acked_is_pruned_plus_reading c fids dm k0 ops Hsp Hff Hc).
+  apply no_torn_from; auto; try apply sinv_init.
+Qed.
